@@ -34,6 +34,7 @@ type Report struct {
 	Violations []string // replay paths
 	Known      map[string]int
 	Dist       map[string]int
+	perClass   map[string]int
 	Rule       string
 	Notes      []string
 	findings   []Finding
@@ -119,7 +120,15 @@ func (r *Report) Violation(classKey string, replay map[string]any, noInput bool)
 		r.Violations = append(r.Violations, path)
 	}
 	r.mu.Unlock()
-	if dup || n >= 5 {
+	if r.perClass == nil {
+		r.perClass = map[string]int{}
+	}
+	r.mu.Lock()
+	r.perClass[classKey]++
+	k := r.perClass[classKey]
+	r.mu.Unlock()
+	// at most 2 replay files per class and 12 per run; every violation is still counted
+	if dup || k > 2 || n >= 12 {
 		return
 	}
 	_ = os.WriteFile(path, b, 0o644)
